@@ -430,7 +430,7 @@ func genC18(t *rapid.T) any {
 		base := rapid.SampledFrom(bases).Draw(t, "base")
 		switch rapid.IntRange(0, 5).Draw(t, "form") {
 		case 0:
-			c.Expr = sq.Call("ENCODE", b.arg(v, "v"), sq.Str(rapid.SampledFrom([]string{"base16", "", "b64", "rot13"}).Draw(t, "badbase")))
+			c.Expr = sq.Call("ENCODE", b.arg(v, "v"), sq.Str(rapid.SampledFrom([]string{"base16", "", "b64", "rot13", "baſe64", "BAſE32", "heẋ"}).Draw(t, "badbase")))
 		case 1:
 			c.Expr = sq.Call("ENCODE", b.arg(v, "v"), sq.Str(caseFlip(t, base, "b")))
 			c.Direct = true
@@ -439,8 +439,13 @@ func genC18(t *rapid.T) any {
 		}
 	case "hash":
 		v := genC18Scalar(t, "v")
-		alg := rapid.SampledFrom([]string{"md5", "sha1", "sha256", "sha512", "sha384", "crc32", ""}).Draw(t, "alg")
-		c.Expr = sq.Call("HASH", b.arg(v, "v"), sq.Str(caseFlip(t, alg+" ", "a")[:len(alg)]))
+		alg := rapid.SampledFrom([]string{"md5", "sha1", "sha256", "sha512", "sha384", "crc32", "", "ſha1", "ſHA256", "ſha512"}).Draw(t, "alg")
+		if strings.Contains(alg, "ſ") {
+			// look-alike of a known name (U+017F folds onto s, but is neither s nor S): kept as drawn
+			c.Expr = sq.Call("HASH", b.arg(v, "v"), sq.Str(alg))
+		} else {
+			c.Expr = sq.Call("HASH", b.arg(v, "v"), sq.Str(caseFlip(t, alg+" ", "a")[:len(alg)]))
+		}
 		c.Direct = true
 	case "index":
 		var arr any = genC18Array(t, 2, "arr")
@@ -575,7 +580,7 @@ func genC18(t *rapid.T) any {
 			c.Expr = sq.Call("CHANGETYPE", b.arg(v, "v"), sq.Str(caseFlip(t, "array", "t")))
 			c.Direct = true
 		case 5: // unknown type name
-			c.Expr = sq.Call("CHANGETYPE", b.arg(genC18Scalar(t, "v"), "v"), sq.Str(rapid.SampledFrom([]string{"int", "float", "bool", "", "text", "map"}).Draw(t, "badtype")))
+			c.Expr = sq.Call("CHANGETYPE", b.arg(genC18Scalar(t, "v"), "v"), sq.Str(rapid.SampledFrom([]string{"int", "float", "bool", "", "text", "map", "ſtring", "ſTRING"}).Draw(t, "badtype")))
 			c.Direct = true
 		default: // string -> string, NULL -> NULL
 			v := genC18Scalar(t, "v")
